@@ -62,19 +62,8 @@ class DemoRunner(programs.StorageRunner):
     allow_known = False
 
     def plan_undo(self, txn, pending):
-        # F14 region (known finding): undoing the first change-layer record of an object that lives in
-        # the base.  Excluded by construction unless the case asks for it.
-        touched = False
-        for oid in txn.last_wins():
-            if oid in self.base_oids:
-                revs = [r for r in self.model.revisions(oid)]
-                idx = [i for i, r in enumerate(revs) if r[0] == txn.tid]
-                earlier_change = any(self.is_change_tid(r[0]) for r in revs[:idx[0]]) if idx else True
-                if not earlier_change:
-                    touched = True
-        self.undo_hits_known_region = touched
         if txn.tid not in self.top_tids:
-            return 'error', []      # base transactions cannot be undone through the demo storage
+            return 'error', []      # only transactions of the top changes layer can be undone
         return super().plan_undo(txn, pending)
 
     def undo_candidates(self):
@@ -280,22 +269,21 @@ def execute(case):
 
 
 def probe_known(r, op):
-    """does this transaction contain an undo in the known-finding region?  (model only)"""
-    pending = {}
+    """does this transaction contain an undo in the known-finding region (F14)?  (model only)
+    Region: undoing the first record the TOP changes layer holds for an object that already
+    existed in a lower layer (base, or the changes of a storage pushed on)."""
     for rec in op[2]:
         if rec[0] == 'undo':
             cands = r.undo_candidates()
             if cands:
                 target = cands[rec[1] % len(cands)]
-                hit = False
+                if target.tid not in r.top_tids:
+                    continue
                 for oid in target.last_wins():
-                    if oid in r.base_oids:
-                        revs = r.model.revisions(oid)
-                        idx = [i for i, x in enumerate(revs) if x[0] == target.tid]
-                        if idx and not any(x[0] in r.change_tids for x in revs[:idx[0]]):
-                            hit = True
-                if hit and target.tid in r.change_tids:
-                    r.undo_hits_known_region = True
+                    revs = r.model.revisions(oid)
+                    idx = [i for i, x in enumerate(revs) if x[0] == target.tid]
+                    if idx and idx[0] > 0 and not any(x[0] in r.top_tids for x in revs[:idx[0]]):
+                        r.undo_hits_known_region = True
 
 
 def check_current_only(r, out):
